@@ -37,7 +37,7 @@ Rpc(k) == /\ conn = "open" /\ stage = Len(Stages) /\ endpoint = "gossip"
 (* ... and every RPC request of a gossip peer arrives as the body of a transient stream opened by the node's server for that RPC     *)
 (* (rpc/mod.rs:191-243): the body is decoded under the per-RPC size limit (frame.rs:12-33). A malformed body ends that CALL.          *)
 RpcServers == {"push_validator_addrs", "push_block_store_state", "get_block", "push_tx", "ping"}
-BodyKinds == {"body_garbage", "body_oversize", "body_truncated", "body_empty", "body_wrong_message"}
+BodyKinds == {"body_garbage", "body_oversize", "body_truncated", "body_empty", "body_wrong_message", "body_extreme"}
 RpcBody(srv, k) == /\ conn = "open" /\ stage = Len(Stages) /\ endpoint = "gossip"
                    /\ conn' = "closed" /\ path' = Append(path, srv \o ":" \o k) /\ UNCHANGED <<stage, up, endpoint>>
 Next == Good \/ (\E k \in BadKinds : Bad(k)) \/ (\E k \in RpcKinds : Rpc(k)) \/ (\E srv \in RpcServers, k \in BodyKinds : RpcBody(srv, k))
